@@ -223,6 +223,40 @@ def run(ctx):
                 ctx.disagreements += 1
                 ctx.violation("correspondence", f"time {x.time()} -> model {t} ms, implementation {got} ms",
                               {"op": "millis-model", "time": str(x.time()), "correspondence": "Ckl.Date.toMillis vs ckl.date float arithmetic"})
+    # ---------------- date - date: the model's whole-day difference on exact stamps vs the implementation's operator
+    if ctx.build.ok:
+        reqs, metas = [], []
+        for _ in range(3000 if ctx.thorough else 600):
+            n1 = rng.choice(days) if rng.random() < 0.5 else rng.randrange(first, last + 1)
+            n2 = n1 + rng.choice([0, 0, 1, -1, 2, 365, -366, 1000, rng.randrange(-40000, 40000)]) if rng.random() < 0.7 else rng.randrange(first, last + 1)
+            if not (first <= n2 <= last):
+                continue
+            d1, d2 = ref_date(n1), ref_date(n2)
+            t1 = rng.choice([0, 1000, 86399000, 43200000, rng.randrange(86400) * 1000])
+            t2 = rng.choice([t1, 0, 1000, 86399000, rng.randrange(86400) * 1000])
+            reqs.append(f"(date diff {d1.year} {d1.month} {d1.day} {t1} {d2.year} {d2.month} {d2.day} {t2})")
+            metas.append((d1, t1, d2, t2))
+        resp = core.run_driver(reqs)
+        for (d1, t1, d2, t2), r in zip(metas, resp):
+            x1 = datetime.datetime(d1.year, d1.month, d1.day) + datetime.timedelta(milliseconds=t1)
+            x2 = datetime.datetime(d2.year, d2.month, d2.day) + datetime.timedelta(milliseconds=t2)
+            env.put("a", V.ValueDate(x1))
+            env.put("b", V.ValueDate(x2))
+            out = common.run_program(it, "a - b")
+            m = int(proto.parse_sx(r)[1])
+            # the definition: whole days between the two instants, truncated toward zero
+            delta = x1 - x2
+            day = datetime.timedelta(days=1)
+            want = delta // day if delta >= datetime.timedelta(0) else -((-delta) // day)
+            ctx.count("model_date_differences")
+            ctx.seen(("diff", x1, x2), nontrivial=t1 != t2 or d1 != d2)
+            if out[:2] != ('val', str(want)):
+                ctx.violation("oracle", f"`a - b` with a={x1.isoformat()}, b={x2.isoformat()} gives {out[:2]}, the whole days between them are {want}",
+                              {"op": "program", "src": "a - b", "a": x1.isoformat(), "b": x2.isoformat()})
+            if m != want or out[:2] != ('val', str(m)):
+                ctx.disagreements += 1
+                ctx.violation("correspondence", f"a={x1.isoformat()}, b={x2.isoformat()}: model diffDays = {m}, implementation {out[:2]}",
+                              {"op": "date-diff", "a": x1.isoformat(), "b": x2.isoformat(), "correspondence": "Ckl.Date.diffDays on stamps vs FuncSub on dates"})
     ctx.sample({"day_number": 25569, "date": "1970-01-01"})
     ctx.sample({"program": "(d + k) - k == d", "d": "2024-02-29", "k": 366})
     ctx.sample({"boundary_days_checked": len(days)})
